@@ -39,6 +39,36 @@ def _abstract_stub(ctx, f):
     return True
 
 
+def _option_guard(f, r):
+    """The raise sits under `if` tests that look at nothing but optional parameters of its own function (and constants / builtins /
+    types): a check of how an option is used (`solve(prune_states="yes")`), which the documented call - no option - cannot trip."""
+    import builtins
+    tests = []
+    n = r
+    while getattr(n, "parent", None) is not None and n.parent is not f.node:
+        par = n.parent
+        if isinstance(par, ast.If):
+            tests.append(par.test)
+        elif isinstance(par, (ast.For, ast.While, ast.Try, ast.With)):
+            return False
+        n = par
+    if not tests:
+        return False
+    seen = set()
+    for t in tests:
+        for x in ast.walk(t):
+            if isinstance(x, ast.Name):
+                if x.id in f.defaults and not any(isinstance(y, ast.Name) and y.id == x.id and isinstance(y.ctx, ast.Store) for y in walk_no_nested_defs(f.node)):
+                    seen.add(x.id)
+                elif hasattr(builtins, x.id):
+                    continue
+                else:
+                    return False
+            elif isinstance(x, (ast.Attribute, ast.Subscript, ast.Call)) and not (isinstance(x, ast.Call) and isinstance(x.func, ast.Name) and x.func.id in ("isinstance", "type", "callable", "len")):
+                return False
+    return bool(seen)
+
+
 def r1_raise_census(ctx, chk, rule="C06.1"):
     scope = shared.solver_scope(ctx)
     n = 0
@@ -46,6 +76,9 @@ def r1_raise_census(ctx, chk, rule="C06.1"):
         for r in walk_no_nested_defs(f.node):
             if not isinstance(r, ast.Raise):
                 continue
+            home = ctx.prog.funcs.get(f.qual)
+            if home is not None and home.node is not f.node and not (home.node.lineno <= r.lineno <= (home.node.end_lineno or 10**9)):
+                continue                # a helper's raise written into a pipeline view: judged where it is defined
             n += 1
             exc = r.exc
             name = None
@@ -53,10 +86,26 @@ def r1_raise_census(ctx, chk, rule="C06.1"):
                 name = call_name(exc)
             elif isinstance(exc, ast.Name):
                 name = exc.id
+            if isinstance(exc, ast.Call) and name not in ctx.prog.classes and not hasattr(__import__("builtins"), name or "?"):
+                # `raise self._error(...)`: a helper that builds the exception - its class is what the helper returns
+                built_ = set()
+                for g in ctx.cg.resolve(exc, f):
+                    rets = [x for x in walk_no_nested_defs(g.node) if isinstance(x, ast.Return)]
+                    for x in rets:
+                        built_.add(call_name(x.value) if isinstance(x.value, ast.Call) else None)
+                if built_ and None not in built_ and all(ctx.prog.exc_is_a(b_, "ValueError") for b_ in built_):
+                    chk.ok(rule, f.where(r), "raise %s(...): builds %s" % (name, ", ".join(sorted(built_))))
+                    continue
+                if not built_ or None in built_ or not all(b_ in ctx.prog.classes or hasattr(__import__("builtins"), b_) for b_ in built_):
+                    chk.undecided(rule, f.where(r), "`%s`: the class of the raised object is not resolved" % norm_stmt(r))
+                    continue
+                name = sorted(b_ for b_ in built_ if not ctx.prog.exc_is_a(b_, "ValueError"))[0]
             if name == "ValueError" or (name and ctx.prog.exc_is_a(name, "ValueError")):
                 chk.ok(rule, f.where(r), "raise %s(...)%s" % (name, "" if name == "ValueError" else " - a ValueError"))
             elif exc is None:
                 chk.undecided(rule, f.where(r), "bare re-raise")
+            elif _option_guard(f, r):
+                chk.ok(rule, f.where(r), "`%s` guards the value of an option of %s (a parameter with a default): the documented call does not pass it" % (norm_stmt(r)[:60], f.short))
             elif name == "NotImplementedError" and f.cls is not None and _abstract_stub(ctx, f):
                 chk.ok(rule, f.where(r), "abstract stub: every node class that the game builds overrides %s, the base version cannot run" % f.name)
             else:
